@@ -368,7 +368,7 @@ async def sum(iterable: AnyIterable[Any], start: Any = 0) -> Any:
     total = start
     async with ScopedIter(iterable) as item_iter:
         async for item in item_iter:
-            total += item
+            total = total + item
     return total
 
 
